@@ -102,6 +102,7 @@ var names = []string{
 	"14_{{.}}.sql",                            // template syntax (the log formats are templates)
 	"15_-- x.sql",
 	"16_a\\b.sql",
+	"17.5_dotted.sql", // a dot inside the version
 }
 
 // ---------------------------------------------------------------- scanning (the real code)
@@ -264,9 +265,11 @@ func execEvents(evs []string) []string {
 
 func runAPI(w *out.W, h hist) {
 	st := execrun.NewStore()
-	contents := []string{h.oldC, h.newC, h.newC}
-	faults := [][]bool{faultsStopAt(h.k), nil, nil}
-	toks := []string{"3"}
+	// run 3: the old content is restored (after a completed resume the file is completely applied
+	// and is not looked at again; after a refusal the restored file resumes)
+	contents := []string{h.oldC, h.newC, h.newC, h.oldC}
+	faults := [][]bool{faultsStopAt(h.k), nil, nil, nil}
+	toks := []string{"4"}
 	var obs []string
 	var res []execrun.Result
 	var sc [][]scanned
@@ -346,6 +349,13 @@ func runAPI(w *out.W, h hist) {
 		if res[1].Table != res[0].Table {
 			w.Violation(h.id, "history-touched", fmt.Sprintf("revision table changed on refusal: %s -> %s: %s", res[0].Table, res[1].Table, desc))
 		}
+		if res[2].Outcome != res[1].Outcome || len(execEvents(res[2].Events)) != 0 || res[2].Table != res[0].Table {
+			w.Violation(h.id, "not-refused", fmt.Sprintf("second run on the edited file: %s, table %s: %s", res[2].Outcome, res[2].Table, desc))
+		}
+		// the old content restored: the applied statements are what they were again
+		if got := execEvents(res[3].Events); res[3].Outcome != "done" || len(got) != h.n-k {
+			w.Violation(h.id, "not-resumed", fmt.Sprintf("old content restored after a refusal but the run returned %s and executed %v: %s", res[3].Outcome, got, desc))
+		}
 		return
 	}
 	if res[1].Outcome != "done" {
@@ -367,6 +377,10 @@ func runAPI(w *out.W, h hist) {
 	}
 	if res[2].Outcome != "nopending" || len(execEvents(res[2].Events)) != 0 {
 		w.Violation(h.id, "not-settled", fmt.Sprintf("run after a completed resume returned %s: %s", res[2].Outcome, desc))
+	}
+	// a completely applied file is not looked at again, whatever its content (C12_completed_file_edit_not_detected)
+	if res[3].Outcome != "nopending" || len(execEvents(res[3].Events)) != 0 || res[3].Table != res[2].Table {
+		w.Violation(h.id, "not-settled", fmt.Sprintf("completely applied file, old content restored: run returned %s, executed %v, table %s: %s", res[3].Outcome, execEvents(res[3].Events), res[3].Table, desc))
 	}
 }
 
@@ -882,14 +896,14 @@ func main() {
 	switch *mode {
 	case "api":
 		hs := genAPI(*tier)
-		w.Rule = "exhaustive: a file of 3 statements, first run fails at statement k+1 (k=0..2), statement j (every j; quick: k=0 only j=0) rewritten from variant a to variant b for every ordered pair of the 15 white-space variants (11 change Stmt.Text, 4 change only the file), file name cycling through 17 name shapes; + every name shape x {applied, tail} edit; history = ExecuteN (fails), edit + re-hash, ExecuteN, ExecuteN. Non-trivial = k>=1 (the hash comparison loop runs); distinct by (name,k,j,a,b)"
+		w.Rule = "exhaustive: a file of 3 statements, first run fails at statement k+1 (k=0..2), statement j (every j; quick: k=0 only j=0) rewritten from variant a to variant b for every ordered pair of the 15 white-space variants (11 change Stmt.Text, 4 change only the file), file name cycling through 18 name shapes; + every name shape x {applied, tail} edit; history = ExecuteN (fails), edit + re-hash, ExecuteN, ExecuteN, old content restored + re-hash, ExecuteN. Non-trivial = k>=1 (the hash comparison loop runs); distinct by (name,k,j,a,b)"
 		for i := range hs {
 			hs[i].id = fmt.Sprintf("wsapi-%d", i+1)
 			runAPI(w, hs[i])
 		}
 	case "cli":
 		hs := genCLI(*tier)
-		w.Rule = "a file of 3 statements, 2 applied, statement j (one applied, the tail; thorough: all) rewritten base->variant and variant->base for the 14 white-space variants (+3 pairs named in the task), tx-mode none/file alternating: apply (fails), edit + `migrate hash`, apply, apply, status; + 17 file-name shapes x {edit of the applied statement: six applies = tx-mode none/file/all x default/JSON log format on the same database; tail edit: apply (JSON), apply, status}. Non-trivial = every history (k>=1); distinct by (name,j,a,b,modes)"
+		w.Rule = "a file of 3 statements, 2 applied, statement j (one applied, the tail; thorough: all) rewritten base->variant and variant->base for the 14 white-space variants (+3 pairs named in the task), tx-mode none/file alternating: apply (fails), edit + `migrate hash`, apply, apply, status; + 18 file-name shapes x {edit of the applied statement: six applies = tx-mode none/file/all x default/JSON log format on the same database; tail edit: apply (JSON), apply, status}. Non-trivial = every history (k>=1); distinct by (name,j,a,b,modes)"
 		for i := range hs {
 			hs[i].id = fmt.Sprintf("wscli-%d", i+1)
 		}
